@@ -637,6 +637,10 @@ def units():
     # sets (C08) are functions this property depends on
     from . import c08
     us += c08.declared_side_units()      # what the interpreter really reads is C08's / C02's subject, not fusion's
+    # every statement of the fused description is built through StatementBase.__init__ (copy(id=..., depends_on=...)):
+    # the dependencies it records are the ones it was given
+    from . import stmtinit
+    us += stmtinit.units(PROP)
     return us
 
 
@@ -646,6 +650,7 @@ TRUSTED_BASE = [
     "A-FUSE: pymbolic.imperative.transform.disambiguate_and_fuse(a, b, pred): ids of the result unique, a unchanged, every b statement once with dependencies mapped through the id renaming, every name used by both streams with pred(name) true renamed in b (through stmt.map_expressions(SubstitutionMapper)) to a name used by neither, no other name changes; pred None = always",
     "A-SUBST: a pymbolic mapper applied to a CallWithKwargs returns a CallWithKwargs with function, parameters and keyword values mapped; applied to Variable(n) it returns a Variable",
     "pytools Record.copy(**kw) changes exactly the named fields",
+    __import__("contracts.stmtinit", fromlist=["TRUSTED"]).TRUSTED,
     "super() follows the MRO computed from the ClassDef bases (chains are recomputed on every run)",
 ]
 ASSUMPTIONS = [
